@@ -58,6 +58,14 @@ CHECKS['C16'] = comp('BridgeContract.tla', 'Every source length 0..6 with a fail
 CHECKS['C17'] = comp('CrossLoopContract.tla', '1..3 caller threads with their own loops target one loop that is idle / run by loop_in_thread / closed / their own, with coroutines, '
     'tasks and futures that return, raise or sleep, under seeded line-level schedules (controlled Lock, executor, futures, sleep(0) spin); TLC validates C17_Transparent, C17_OnTarget, '
     'C17_ClosedRaises, C17_OneRunner, C17_StartSync/StopSync and C17_Completes. One genuine defect (concurrent ensure_aw on an idle loop strands a call) is a listed known finding.')
+def pure(spec, text):
+    d = comp(spec, text, 'function transcribed into TLA+ (' + spec + '); TLC enumerates the cases, the real function is executed on each, TLC validates the recorded results against the same specification')
+    return d
+CHECKS['C18'] = pure('SplitContract.tla / SplitGen.tla', 'Exhaustive within bounds: every source of length 0..3 (quick) / 0..4 (thorough) over two values, every boolean-iterable condition '
+    '(shorter, equal, longer; truthy/falsy non-bools), stateless and stateful callables, every order of next() calls on the two iterators incl. abandoning one, for list / iterator / '
+    'generator sources, plus random configurations up to length 7; clauses C18_Partition, C18_SourceOnce, C18_PredicateOnce, C18_Lazy, C18_Exhaust.')
+CHECKS['C20'] = pure('GatherContract.tla / GatherGen.tla', 'Exhaustive within bounds: every list of 0..2 (quick) / 0..3 (thorough) awaitables with delay in {0,1,2} and outcome over the '
+    'exception hierarchy, every `only`, both functions, plus random lists of up to 5, run in virtual time; clauses C20_AllRun, C20_ExactlyFiltered, C20_InputOrder, C20_RaiseFirst, C20_NoneWhenEmpty.')
 PENDING_REASON = 'check not built yet in this session (planned: see DESIGN.md §5); not a claim that the technique cannot apply'
 PENDING = {('C%02d' % i): PENDING_REASON for i in range(1, 21)}
 ENGINES = [
